@@ -27,6 +27,10 @@ type Oblig struct {
 	ExpectSat bool
 	Text      string
 	Clause    *Clause
+	Decided   bool // decided by bxv itself (no solver query)
+	lemmaDecls []string
+	lemmaBody  string
+	lemmaFuel  int
 }
 
 type addrKind int
@@ -93,6 +97,8 @@ type fnEnc struct {
 	curHeap  heapState
 	retCount int
 	deferred []*ssa.Defer
+	lits     map[string][]string
+	capVal   map[*ssa.FreeVar]Term
 }
 
 func (e *fnEnc) fresh(prefix, sort string) string {
@@ -381,7 +387,7 @@ func (e *fnEnc) writesOf(in ssa.Instruction) []string {
 		if key != "" {
 			if c := e.V.CS.ByKey[key]; c != nil {
 				if c.HasAssigns {
-					return c.Assigns
+					return stripLoc(c.Assigns)
 				}
 				if c.External {
 					return nil
@@ -397,7 +403,7 @@ func (e *fnEnc) writesOf(in ssa.Instruction) []string {
 			if cn == nil || !cn.HasAssigns {
 				return []string{"*"}
 			}
-			out = append(out, cn.Assigns...)
+			out = append(out, stripLoc(cn.Assigns)...)
 		}
 		return out
 	}
@@ -490,8 +496,10 @@ func (V *Verifier) encode(fn *ssa.Function) (enc *fnEnc, err error) {
 	e := &fnEnc{V: V, U: V.U, fn: fn, key: funcKey(fn), val: map[ssa.Value][]Term{}, addr: map[ssa.Value]*addrDesc{},
 		localArr: map[*ssa.Alloc]map[int]Term{}, reachIn: map[*ssa.BasicBlock]string{}, reachOut: map[*ssa.BasicBlock]string{},
 		heapOut: map[*ssa.BasicBlock]heapState{}, edgeCond: map[[2]*ssa.BasicBlock]string{}, counters: map[string]int{},
-		heapDecl: map[string]bool{}, params: map[string]Term{}}
+		heapDecl: map[string]bool{}, params: map[string]Term{}, lits: map[string][]string{}, capVal: map[*ssa.FreeVar]Term{}}
 	e.con = V.CS.ByKey[e.key]
+	V.U.emit = e.assert
+	defer func() { V.U.emit = nil }()
 	defer func() {
 		if r := recover(); r != nil {
 			if s, ok := r.(encErr); ok {
@@ -522,12 +530,21 @@ func (V *Verifier) encode(fn *ssa.Function) (enc *fnEnc, err error) {
 	}
 	ctor := U.fnCtorOf(fn)
 	for i, fv := range fn.FreeVars {
+		if ctor.ByVal[i] {
+			el := fv.Type().Underlying().(*types.Pointer).Elem()
+			s := U.sortOf(el)
+			t := Term{e.fresh("fv."+fv.Name(), s), s, el}
+			e.capVal[fv] = t
+			e.val[fv] = []Term{t}
+			e.typeFacts(t, "")
+			e.params[fv.Name()] = t
+			continue
+		}
 		s := U.sortOf(fv.Type())
 		t := Term{e.fresh("fv."+fv.Name(), s), s, fv.Type()}
 		e.val[fv] = []Term{t}
 		e.typeFacts(t, "")
 		e.params[fv.Name()] = t
-		_ = i
 	}
 	if len(fn.FreeVars) > 0 {
 		// self: the closure value
@@ -902,4 +919,15 @@ func (e *fnEnc) backEdge(src *ssa.BasicBlock, li *loopInfo) {
 		o := e.oblig("dec", fmt.Sprintf("loop%d", li.ordinal), d.Props, c, fmt.Sprintf("(and (>= %s 0) (< %s %s))", v0.S, v1.S, v0.S), li.header.Instrs[0].Pos())
 		o.Clause = d
 	}
+}
+
+func stripLoc(as []string) []string {
+	out := make([]string, len(as))
+	for i, a := range as {
+		if j := strings.Index(a, "@"); j >= 0 {
+			a = a[:j]
+		}
+		out[i] = a
+	}
+	return out
 }
